@@ -61,6 +61,14 @@ func c33action(c *cl.CL, a string) func() error {
 		return func() error { return c.C.Sleep(3 * time.Second) }
 	case "Sleep(6s)":
 		return func() error { return c.C.Sleep(6 * time.Second) }
+	case "Sleep(3s)+Ping":
+		// a second API call after the sleep period: whatever the keep-alive loop did meanwhile must not block it
+		return func() error {
+			if err := c.C.Sleep(3 * time.Second); err != nil {
+				return err
+			}
+			return c.C.Ping()
+		}
 	case "Disconnect":
 		return c.C.Disconnect
 	case "Publish q1":
@@ -129,9 +137,14 @@ func runC33(t *testing.T, sc c33sc, keepAlive time.Duration, prefix []int) explo
 					return nil
 				}
 			case p.Type == refsn.DISCONNECT && p.HasDur && p.Duration > 0:
-				if s.Choose(2, "DISCONNECT reply") == 1 {
+				switch s.Choose(3, "DISCONNECT reply") {
+				case 1:
 					glog = append(glog, "DISCONNECT+1s")
 					return late(time.Second)
+				case 2:
+					// (actions start at x.5 s: this reply arrives at the very instant of a keep-alive tick)
+					glog = append(glog, "DISCONNECT+0.5s")
+					return late(500 * time.Millisecond)
 				}
 			case p.Type == refsn.DISCONNECT:
 				// the reply to the plain DISCONNECT of Disconnect(): a keep-alive tick can fall into the exchange
@@ -279,6 +292,11 @@ func c33scenarios() []c33sc {
 			}
 		}
 	}
+	for _, ka := range []time.Duration{4 * time.Second, 2 * time.Second} {
+		for _, at := range []time.Duration{1500 * time.Millisecond, 3500 * time.Millisecond} {
+			out = append(out, c33sc{"Sleep(3s)+Ping", at, ka, 0})
+		}
+	}
 	// a sleep period shorter than the retry delay: the client falls asleep and wakes up again within one
 	// unanswered keep-alive exchange
 	for _, a := range []string{"Sleep(1s)", "Sleep(2s)"} {
@@ -302,7 +320,8 @@ func TestC33(t *testing.T) {
 	rep := explore.NewReport("C33", "model_checking")
 	// differential baseline: without the keep-alive loop every action succeeds against a prompt gateway
 	for _, sc := range c33scenarios() {
-		if sc.action == "none" || sc.at != 500*time.Millisecond || sc.ka != c33KeepAlive {
+		first := sc.at == 500*time.Millisecond || (sc.action == "Sleep(3s)+Ping" && sc.at == 1500*time.Millisecond)
+		if sc.action == "none" || !first || sc.ka != c33KeepAlive {
 			continue
 		}
 		r := runC33(t, sc, 0, nil)
@@ -312,7 +331,7 @@ func TestC33(t *testing.T) {
 	}
 	explore.RunScenarios(rep, scs, explore.ScenarioOpts{Test: "TestC33", QuickBound: 2, ThoroughFrom: 2, ThoroughMax: 4,
 		QuickBudget: 150 * time.Second, ThoroughBudge: 12 * time.Minute})
-	rep.Coverage["rule"] = "KeepAlive 4 s and 2 s (a tick can come due while the previous ping is in flight), RetryDelay 1 s, RetryCount 2; after Connect one API action (Sleep 3 s / Sleep 6 s / Disconnect / Publish q1 / Ping / none) at t = 0.5 .. 9.5 s (0.5 .. 5.5 s for KeepAlive 2 s), plus Sleep 1 s / 2 s with RetryDelay 3 s (asleep and awake again within one keep-alive exchange); the gateway answers each keep-alive PINGREQ at once / 1 s late / 2 s late / never a DISCONNECT(d) at once / 1 s late and the reply to the plain DISCONNECT at once / 1 s / 2.5 s late; all combinations of these answers, of thread interleavings (API thread, receive loop, keep-alive loop, timer goroutines), of orders of timers due at the same instant and of ready select cases within the deviation bound, run to a 20 s horizon. Checked: no PINGREQ without client id is written while the client state is asleep or disconnected, nor after the client's plain DISCONNECT has gone out (whatever its own state variable says); while active PINGREQs are at most KeepAlive apart (when every ping is answered); with every ping answered the API call returns nil as it does without the keep-alive loop, and it returns in any case"
+	rep.Coverage["rule"] = "KeepAlive 4 s and 2 s (a tick can come due while the previous ping is in flight), RetryDelay 1 s, RetryCount 2; after Connect one API action (Sleep 3 s / Sleep 6 s / Disconnect / Publish q1 / Ping / none) at t = 0.5 .. 9.5 s (0.5 .. 5.5 s for KeepAlive 2 s), plus Sleep 1 s / 2 s with RetryDelay 3 s (asleep and awake again within one keep-alive exchange); the gateway answers each keep-alive PINGREQ at once / 1 s late / 2 s late / never a DISCONNECT(d) at once / 1 s late (0.5 s late too for the DISCONNECT(d) reply, the instant of a tick), the reply to the plain DISCONNECT at once / 1 s / 2.5 s late, plus Sleep 3 s followed by a Ping at t = 1.5 / 3.5 s; all combinations of these answers, of thread interleavings (API thread, receive loop, keep-alive loop, timer goroutines), of orders of timers due at the same instant and of ready select cases within the deviation bound, run to a 20 s horizon. Checked: no PINGREQ without client id is written while the client state is asleep or disconnected, nor after the client's plain DISCONNECT has gone out (whatever its own state variable says); while active PINGREQs are at most KeepAlive apart (when every ping is answered); with every ping answered the API call returns nil as it does without the keep-alive loop, and it returns in any case"
 	rep.Assumptions = []string{"virtual time; timers on whole seconds, actions on half seconds", "client state sampled at every scheduling step", "keep-alive PINGREQ = PINGREQ without client id"}
 	rep.Finish()
 }
